@@ -126,9 +126,10 @@ def remapKey (remap : List (Nat × Nat)) (k : Nat) : Nat :=
 def Drv.adopt (d : Drv) (n : String) (r : Rel) : Drv × Rel :=
   let (r', s) := (renumber r).run { d := d }
   let d' := s.d
+  -- relocate payloads attached under temporary ids; entries of discarded temporaries are dropped
   let d' := { d' with
-    st := { d'.st with payloads := d'.st.payloads.map (fun (p : Nat × Iterable) => (remapKey s.remap p.1, p.2)) },
-    sqlSt := { d'.sqlSt with payloads := d'.sqlSt.payloads.map (fun (p : Nat × SqlPayload) => (remapKey s.remap p.1, p.2)) } }
+    st := { d'.st with payloads := (d'.st.payloads.map (fun (p : Nat × Iterable) => (remapKey s.remap p.1, p.2))).filter (fun p => p.1 < tempBase) },
+    sqlSt := { d'.sqlSt with payloads := (d'.sqlSt.payloads.map (fun (p : Nat × SqlPayload) => (remapKey s.remap p.1, p.2))).filter (fun p => p.1 < tempBase) } }
   (d'.setRel n r', r')
 
 def errLine (e : Err) : String := "err " ++ e.name
@@ -525,7 +526,8 @@ def step (d : Drv) (cmd : List Sexp) : Drv × String :=
       match processTop d.sigma d.st d.sqlSt t with
       | (.error e, ps) =>
         if e == .unspecified then (d, errLine e)
-        else ({ d with st := ps.st, sqlSt := ps.sq }, errLine e)
+        else ({ d with st := { ps.st with payloads := ps.st.payloads.filter (fun p => p.1 < tempBase) },
+                       sqlSt := { ps.sq with payloads := ps.sq.payloads.filter (fun p => p.1 < tempBase) } }, errLine e)
       | (.ok res, ps) =>
         let d := { d with st := ps.st, sqlSt := ps.sq }
         let d := d.setDirect n (d.direct? tn)
